@@ -1,6 +1,7 @@
-/- Driver ops for PacMan: pac_man.{state,step,judge,instance} -/
+/- Driver ops for PacMan: pac_man.{state,step,judge,instance,bounds} -/
 import JumanjiModel.Bridge.Json
 import JumanjiModel.Env.PacMan.Model
+import JumanjiModel.Env.PacMan.Bounds
 open Lean Jb
 
 namespace Jb.PacMan
@@ -102,7 +103,16 @@ def opInstance : Op := fun j => do
               ("consistent", jBool (decide (Consistent s))),
               ("border_symmetric", jBool (decide (BorderSymmetric s.grid)))])
 
+/-- {cfg: {time_limit, maze}} → {leaf path: {"lo": rat|null, "hi": rat|null}}: the proved value bounds `obsBounds`
+(C01; `x_size` / `y_size` = rows / columns of the ASCII maze) -/
+def opBounds : Op := fun j => do
+  let cfg ← field j "cfg"
+  let maze := (← getList getStr (← field cfg "maze")).map String.toList
+  let bc : BCfg := { xSize := maze.length, ySize := (maze.headD []).length, timeLimit := ← fInt cfg "time_limit" }
+  let jo : Option Rat → Json := fun o => match o with | none => .null | some r => jRat r
+  pure (jObj ((obsBounds bc).map (fun (k, lo, hi) => (k, jObj [("lo", jo lo), ("hi", jo hi)]))))
+
 def ops : List (String × Op) :=
-  [("pac_man.state", opState), ("pac_man.step", opStep), ("pac_man.judge", opJudge),
+  [("pac_man.bounds", opBounds), ("pac_man.state", opState), ("pac_man.step", opStep), ("pac_man.judge", opJudge),
    ("pac_man.instance", opInstance)]
 end Jb.PacMan
